@@ -241,6 +241,16 @@ def correspondence(ctx):
             ctx.violation("ZSTD_estimate*_usingCParams differs from the sizing model: %s -> code %s, model %s" % (ln, a, b), dict(kind="tie-estimate", op=ln, code=a, model=b), no_input=True)
             break
     samples.append(dict(op=lines[0], code=co[0], model=mo[0]))
+    # levels beyond ZSTD_maxCLevel() (legal: they compress like the maximum) up to INT_MAX: the estimate saturates (level_estimate_saturates) and
+    # returns at once - a loop that runs once per level does not come back for INT_MAX
+    hl = ["estl %s %d" % (k, L) for k in ("cctx", "cstream") for L in (23, 24, 100, 65536, 2147483646, 2147483647)]
+    for ln in hl:
+        co1, mo1, rc1, err1 = zv.differential(hx_ws(), "mem", [ln], timeout=20)
+        ev += 1; distinct.add(ln)
+        if not co1 or co1[0] != mo1[0]:
+            ctx.violation("ZSTD_estimateCCtxSize / CStreamSize at a level beyond the maximum: %s -> code %s (exit %s), model %s" % (
+                ln, co1[0] if co1 and co1[0] else "no answer within 20 s", rc1, mo1[0]), dict(kind="tie-estimate-level", op=ln, code=(co1 or [""])[0], model=mo1[0]))
+            break
     # ---------- (2)+(3) workspace traces ----------
     wl = []
     nws = 160 if quick else 2500
